@@ -3,6 +3,7 @@ transcript per simulated thread.  Oracles live in sim/props/*; this module only 
 (annotation objects, decorated callables), interprets operations and offers observation helpers."""
 
 import dataclasses
+import json
 import typing
 import warnings
 
@@ -238,10 +239,25 @@ class World:
 # ------------------------------------------------------------------------------------------
 # values
 
+_POOL = __import__("threading").local()
+
+
+def reset_pool():
+    _POOL.objs = {}
+
+
 def build_value(v, frame=None, memo=None):
     if memo is None:
         memo = {}
     t = v["t"]
+    if t == "pool":  # the SAME object across operations of one simulated thread (identity-keyed caches must not matter)
+        objs = getattr(_POOL, "objs", None)
+        if objs is None:
+            objs = _POOL.objs = {}
+        key = json.dumps(v["v"], sort_keys=True)
+        if key not in objs:
+            objs[key] = build_value(v["v"], frame, memo)
+        return objs[key]
     if t == "shared":  # the SAME object at several positions of one value
         if v["key"] not in memo:
             memo[v["key"]] = build_value(v["v"], frame, memo)
@@ -654,7 +670,7 @@ def warm_up():
 
 
 def run_threads(scn, programs, sched_spec, rnd, observer=None, plans=None, yield_on_seams=True,
-                opcode_storage=False, watchdog_s=60.0, build=True, interp=None, thread_init=None):
+                opcode_storage=False, watchdog_s=60.0, build=True, interp=None, thread_init=None, opcode_all=False):
     """Execute the given per-thread programs under the given schedule policy.
     Returns (interp, runs, scheduler)."""
     from . import sched as S
@@ -667,7 +683,7 @@ def run_threads(scn, programs, sched_spec, rnd, observer=None, plans=None, yield
         seams.uninstall()
     n = len(programs)
     pol = S.make_policy(sched_spec, n, rnd, expected_yields=scn.get("_expected_yields", 4000))
-    sc = S.Scheduler(n, pol, opcode_storage=opcode_storage, watchdog_s=watchdog_s)
+    sc = S.Scheduler(n, pol, opcode_storage=opcode_storage, watchdog_s=watchdog_s, opcode_all=opcode_all)
     runs = [None] * n
     states = [None] * n
 
@@ -678,6 +694,7 @@ def run_threads(scn, programs, sched_spec, rnd, observer=None, plans=None, yield
             states[i] = st
             r = interp.start_thread(i)
             runs[i] = r
+            reset_pool()
             try:
                 if thread_init is not None:
                     thread_init(i)
@@ -704,6 +721,7 @@ class Direct:
         self.interp.world.build()
         self.state.enabled = True
         self.run = self.interp.start_thread(0)
+        reset_pool()
 
     def reset_faults(self, plan=None):
         self.state.plan = dict(plan or {})
